@@ -1,7 +1,212 @@
 package main
 
-// Command generators for the set module (placeholder).
+// Command generator for the set module (SADD ... SUNIONSTORE), property C16.
+//
+// Programs run over 2-4 keys.  Presets put values of every type under those keys so that every
+// command meets non-set operands, absent operands, empty sets (a set emptied by SREM stays in
+// the keyspace) and destinations equal to a source.  Members come from a small pool (so that
+// unions / intersections / differences are non-trivial) that contains the empty string,
+// numeric-looking strings, CR LF, NUL and a non-UTF-8 byte.
 
+import (
+	"math/rand"
+)
+
+// the first five are drawn most of the time
+var setMembers = []string{
+	"a", "b", "c", "d", "e",
+	"", "ab", "A", " ", "7", "007", "-3", "1.5", "+5", "a\r\nb", "\r\n", "\n", "\x00", "a\x00b", "x\xffy", "LIMIT", "k1",
+}
+
+func setMember(r *rand.Rand) Tok {
+	switch r.Intn(10) {
+	case 0, 1:
+		return B(setMembers[5+r.Intn(len(setMembers)-5)])
+	case 2:
+		if r.Intn(3) == 0 {
+			return B(randFree(r))
+		}
+		return I(pick(r, []int64{0, 7, -3, 12}))
+	default:
+		return B(setMembers[r.Intn(5)])
+	}
+}
+
+func setMemberList(r *rand.Rand, min int) []Tok {
+	n := min + r.Intn(4)
+	out := make([]Tok, 0, n+1)
+	for i := 0; i < n; i++ {
+		out = append(out, setMember(r))
+	}
+	if len(out) > 0 && r.Intn(4) == 0 { // an explicit duplicate
+		out = append(out, out[r.Intn(len(out))])
+	}
+	return out
+}
+
+// counts / limits: negative, zero, = cardinality, beyond; literals that AdaptType accepts as
+// integers ("007", "+2", "2.0", "-0"), fractional and non-numeric ones.
+func setCount(r *rand.Rand) Tok {
+	switch r.Intn(12) {
+	case 0:
+		return B(pick(r, []string{"abc", "", "1.5", "1.2.3", "-", "+", ".", "one", "0.25", "2.50"}))
+	case 1:
+		return B(pick(r, []string{"007", "+2", "2.0", "-0", "-2.0", "3.", "0"}))
+	case 2:
+		return Q(pick(r, []int64{8, 6, -4, 1, 0}))
+	default:
+		return I(pick(r, []int64{0, 1, 1, 2, 2, 3, 4, 5, 6, 10, -1, -2, -3, -4, -5, -8}))
+	}
+}
+
+var setCmdNames = []string{"SADD", "SCARD", "SDIFF", "SDIFFSTORE", "SINTER", "SINTERCARD", "SINTERSTORE", "SISMEMBER",
+	"SMEMBERS", "SMISMEMBER", "SMOVE", "SPOP", "SRANDMEMBER", "SREM", "SUNION", "SUNIONSTORE"}
+
+func genSet(r *rand.Rand, keys []string) []Tok {
+	k := func() Tok { return S(pick(r, keys)) }
+	// operand lists: 1..4 keys, repeats and absent keys arise naturally from the small key pool
+	ks := func(min int) []Tok {
+		n := min + r.Intn(3)
+		if r.Intn(8) == 0 {
+			n++
+		}
+		out := make([]Tok, 0, n)
+		for i := 0; i < n; i++ {
+			out = append(out, k())
+		}
+		return out
+	}
+	switch r.Intn(40) {
+	case 0, 1, 2, 3, 4, 5:
+		return append([]Tok{S("SADD"), k()}, setMemberList(r, 1)...)
+	case 6, 7, 8:
+		return append([]Tok{S("SREM"), k()}, setMemberList(r, 1)...)
+	case 9:
+		return []Tok{S("SCARD"), k()}
+	case 10, 11:
+		return []Tok{S("SMEMBERS"), k()}
+	case 12:
+		return []Tok{S("SISMEMBER"), k(), setMember(r)}
+	case 13:
+		return append([]Tok{S("SMISMEMBER"), k()}, setMemberList(r, 1)...)
+	case 14, 15:
+		return append([]Tok{S("SDIFF")}, ks(1)...)
+	case 16, 17:
+		return append([]Tok{S("SDIFFSTORE"), k()}, ks(1)...)
+	case 18, 19:
+		return append([]Tok{S("SINTER")}, ks(1)...)
+	case 20, 21:
+		return append([]Tok{S("SINTERSTORE"), k()}, ks(1)...)
+	case 22, 23, 24:
+		c := append([]Tok{S("SINTERCARD")}, ks(1)...)
+		switch r.Intn(8) {
+		case 0, 1, 2, 3:
+			c = append(c, kw(r, "LIMIT"), setCount(r))
+		case 4:
+			c = append(c, kw(r, "LIMIT")) // value missing
+		case 5:
+			c = append(c, kw(r, "LIMIT"), setCount(r), k()) // trailing tokens
+		case 6:
+			if r.Intn(3) == 0 {
+				c = []Tok{S("SINTERCARD"), kw(r, "LIMIT"), setCount(r)} // LIMIT where the first key should be
+			}
+		}
+		return c
+	case 25, 26:
+		return append([]Tok{S("SUNION")}, ks(1)...)
+	case 27, 28:
+		return append([]Tok{S("SUNIONSTORE"), k()}, ks(1)...)
+	case 29, 30, 31:
+		return []Tok{S("SMOVE"), k(), k(), setMember(r)}
+	case 32, 33:
+		c := []Tok{S("SPOP"), k()}
+		if r.Intn(3) != 0 {
+			c = append(c, setCount(r))
+		}
+		return c
+	case 34, 35:
+		c := []Tok{S("SRANDMEMBER"), k()}
+		if r.Intn(3) != 0 {
+			c = append(c, setCount(r))
+		}
+		return c
+	case 36:
+		// wrong arity: too short / too long
+		c := []Tok{S(pick(r, setCmdNames))}
+		n := r.Intn(3)
+		for i := 0; i < n; i++ {
+			c = append(c, k())
+		}
+		if r.Intn(3) == 0 {
+			for i := 0; i < 4; i++ {
+				c = append(c, k())
+			}
+		}
+		return c
+	case 37:
+		// change the type of a key / remove it in mid-program
+		switch r.Intn(4) {
+		case 0:
+			return []Tok{S("SET"), k(), B(pick(r, []string{"hello", "41", "1.5", ""}))}
+		case 1:
+			return []Tok{S("DEL"), k(), k()}
+		default:
+			return []Tok{S("DEL"), k()}
+		}
+	case 38:
+		return []Tok{S("TYPE"), k()}
+	default:
+		return []Tok{S("SMEMBERS"), k()}
+	}
+}
+
+func setPresets() [][][]Tok {
+	sadd := func(k string, ms ...string) []Tok {
+		c := []Tok{S("SADD"), S(k)}
+		for _, m := range ms {
+			c = append(c, B(m))
+		}
+		return c
+	}
+	return [][][]Tok{
+		{},
+		{sadd("k1", "a", "b", "c"), sadd("k2", "b", "c", "d")},
+		{sadd("k1", "a", "b", "c", "d", "e"), sadd("k2", "c"), sadd("k3", "a", "", "\r\n", "c")},
+		{sadd("k1", "a", "b", "c", "d"), sadd("k2", "a", "b", "c"), sadd("k3", "b", "c", "e"), sadd("k4", "c", "d")},
+		{sadd("k1", "a"), {S("SREM"), S("k1"), B("a")}, sadd("k2", "a", "b")}, // k1 is an existing empty set
+		{{S("SET"), S("k1"), B("hello")}, sadd("k2", "a", "b", "c")},
+		{{S("SET"), S("k1"), B("41")}, sadd("k2", "a", "7")},
+		{{S("SET"), S("k2"), B("1.5")}, sadd("k1", "a", "b"), sadd("k3", "b")},
+		{{S("RPUSH"), S("k1"), B("a"), B("b")}, sadd("k2", "a", "b")},
+		{{S("HSET"), S("k2"), B("a"), B("v")}, sadd("k1", "a", "b", "c")},
+		{{S("ZADD"), S("k1"), I(1), B("a")}, sadd("k2", "a", "c")},
+		{sadd("k1", "a", "b", "c"), {S("RPUSH"), S("k2"), B("a")}, {S("HSET"), S("k3"), B("f"), B("v")}, {S("ZADD"), S("k4"), I(2), B("b")}},
+		{sadd("k1", "x\xffy", "\x00", "a\r\nb", "", "007"), sadd("k2", "", "7", "007", "a\r\nb")},
+		// sets with a deadline: once it has passed the key is absent for every command; a write over a
+		// live key (in place or through a STORE variant) keeps the deadline
+		{sadd("k1", "a", "b", "c"), {S("PEXPIRE"), S("k1"), I(1500)}, sadd("k2", "b", "c", "d")},
+		{sadd("k1", "a", "b"), sadd("k2", "b", "c", "d"), {S("PEXPIRE"), S("k2"), I(999)}, {S("SET"), S("k3"), B("x"), S("PX"), I(500)}},
+		{sadd("k1", "a", "b"), {S("PEXPIRE"), S("k1"), I(10000)}, sadd("k2", "b", "c"), {S("PEXPIRE"), S("k2"), I(1000)}, sadd("k3", "c")},
+	}
+}
+
+// RandomSetPrograms builds n random programs of the given length.
 func RandomSetPrograms(seed int64, n, length int) []Program {
-	return nil
+	r := rand.New(rand.NewSource(seed))
+	presets := setPresets()
+	var out []Program
+	for i := 0; i < n; i++ {
+		nk := 2 + r.Intn(3)
+		keys := []string{"k1", "k2", "k3", "k4"}[:nk]
+		p := Program{Preset: presets[r.Intn(len(presets))]}
+		for j := 0; j < length; j++ {
+			var t int64
+			if r.Intn(3) == 0 {
+				t = randTick(r)
+			}
+			p.Steps = append(p.Steps, Step{Cmd: genSet(r, keys), Tick: t})
+		}
+		out = append(out, p)
+	}
+	return out
 }
